@@ -814,6 +814,16 @@ class Interp(object):
                 return NONE
             if nm == 'items':
                 return recv
+            if nm in ('extend', 'insert', 'remove', 'pop', 'sort', 'reverse', 'clear', '__iadd__') and isinstance(recv, ListVal):
+                # a change of the list this domain does not follow: whoever ranges over the list afterwards ranges over
+                # something unknown as well (never silently over less)
+                v = A(0) if nm == 'extend' else None
+                if nm == 'extend' and isinstance(v, ListVal) and len(self.loops) <= getattr(recv, '_born', 0) and \
+                        not any(it[0] == 'taint' for it in v.items):
+                    recv.items.extend(v.items)
+                else:
+                    recv.items.append(('taint', unparse(e)[:80]))
+                return NONE
         if nm == 'items' and isinstance(recv, (P, Phi, Opaque)):
             p = recv
             if isinstance(p, Phi):
@@ -855,6 +865,10 @@ class Interp(object):
                 septxt = sep.parts[0].strip()
             minus = septxt == '-'
             for it in lst.items:
+                if it[0] == 'taint':
+                    parts.append(Str([Hole('opaque', it[1])]))
+                    first = False
+                    continue
                 if it[0] == 'item':
                     s = self.to_str(it[1])
                     if first:
@@ -1301,6 +1315,8 @@ class Interp(object):
             for item in it.items:
                 if item[0] == 'item':
                     parts.append((None, item[1]))
+                elif item[0] == 'taint':
+                    parts.append((Coll('opaque', item[1]), None))
                 else:
                     parts.append((Coll('folded', item[1]), item[3]))
         elif isinstance(it, Tup):
